@@ -3,6 +3,8 @@ use crate::{
     cli::ber::parse_puncturing_pattern, encoder::Encoder as LdpcEncoder, gf2::GF2,
     simulation::puncturing::Puncturer, sparse::SparseMatrix,
 };
+#[cfg(ldpc_toolbox_verif)]
+use crate::verif_seam::std;
 use libc::size_t;
 use ndarray::Array1;
 use num_traits::{One, Zero};
